@@ -565,21 +565,74 @@ func (x *condXlat) order(a, b ast.Expr, mask uint8) Formula {
 	return &FLit{"ord:" + sa + "|" + sb, 3, mask}
 }
 
-func (x *condXlat) compare(t *ast.BinaryExpr) Formula {
-	mask := opMask[t.Op]
-	// a.Cmp(b) ⋚ 0
-	if call, ok := ast.Unparen(t.X).(*ast.CallExpr); ok {
-		if se, ok := ast.Unparen(call.Fun).(*ast.SelectorExpr); ok && se.Sel.Name == "Cmp" && len(call.Args) == 1 {
-			if v, isC := constInt(x.info, t.Y); isC && v == 0 {
-				return x.order(se.X, call.Args[0], mask)
+// cmpCall recognises a.Cmp(b) on uint128 values (directly, or through a local
+// declared once as that call) and returns the operands.
+func (x *condXlat) cmpCall(e ast.Expr) (ast.Expr, ast.Expr, bool) {
+	e = ast.Unparen(e)
+	if id, ok := e.(*ast.Ident); ok && x.fd != nil {
+		if v, ok := x.info.ObjectOf(id).(*types.Var); ok && !v.IsField() && !isParamOf(x.info, x.fd, v) {
+			if def := soleDefinition(x.info, x.fd, v); def != nil {
+				e = ast.Unparen(def)
 			}
 		}
 	}
-	if call, ok := ast.Unparen(t.Y).(*ast.CallExpr); ok {
-		if se, ok := ast.Unparen(call.Fun).(*ast.SelectorExpr); ok && se.Sel.Name == "Cmp" && len(call.Args) == 1 {
-			if v, isC := constInt(x.info, t.X); isC && v == 0 {
-				return x.order(se.X, call.Args[0], flipMask(mask))
-			}
+	call, ok := e.(*ast.CallExpr)
+	if !ok || len(call.Args) != 1 {
+		return nil, nil, false
+	}
+	se, ok := ast.Unparen(call.Fun).(*ast.SelectorExpr)
+	if !ok || se.Sel.Name != "Cmp" {
+		return nil, nil, false
+	}
+	if f, ok := calleeObj(x.info, call).(*types.Func); !ok || f.Pkg() == nil || !strings.HasSuffix(f.Pkg().Path(), "uint128") {
+		return nil, nil, false
+	}
+	return se.X, call.Args[0], true
+}
+
+// cmpMask: the set of orderings {<,=,>} of (a,b) for which "a.Cmp(b) op k"
+// holds (flipped: "k op a.Cmp(b)").
+func cmpMask(op token.Token, k int64, flipped bool) uint8 {
+	var m uint8
+	for i, r := range []int64{-1, 0, 1} {
+		l, rr := r, k
+		if flipped {
+			l, rr = k, r
+		}
+		var holds bool
+		switch op {
+		case token.EQL:
+			holds = l == rr
+		case token.NEQ:
+			holds = l != rr
+		case token.LSS:
+			holds = l < rr
+		case token.LEQ:
+			holds = l <= rr
+		case token.GTR:
+			holds = l > rr
+		case token.GEQ:
+			holds = l >= rr
+		}
+		if holds {
+			m |= 1 << uint(i)
+		}
+	}
+	return m
+}
+
+func (x *condXlat) compare(t *ast.BinaryExpr) Formula {
+	mask := opMask[t.Op]
+	// a.Cmp(b) ⋚ k for any integer constant k (Cmp yields -1, 0 or +1); the
+	// call may have been bound to a local first (cmp := a.Cmp(b)).
+	if a, b, ok := x.cmpCall(t.X); ok {
+		if k, isC := constInt(x.info, t.Y); isC {
+			return x.order(a, b, cmpMask(t.Op, k, false))
+		}
+	}
+	if a, b, ok := x.cmpCall(t.Y); ok {
+		if k, isC := constInt(x.info, t.X); isC {
+			return x.order(a, b, cmpMask(t.Op, k, true))
 		}
 	}
 	tx, okx := x.info.Types[t.X]
